@@ -140,6 +140,17 @@ func genSqlCfg(r *rng, prop string, tier string) SqlCfg {
 		for i := 0; i < n; i++ {
 			c.LateTables = append(c.LateTables, TableSpec{Name: fmt.Sprintf([]string{"u%d", "u%d", "U%d", "Ux%d"}[r.Intn(4)], i), Cols: genCols(r, true), Wide: []int{6, 30, 120}[r.Intn(3)]})
 		}
+		if n >= 12 {
+			// column names of very different lengths: catalog rows of different sizes leave holes on the
+			// catalog pages that later, shorter rows fill (a table's column rows are then not contiguous)
+			for i := range c.LateTables {
+				for j := 1; j < len(c.LateTables[i].Cols); j++ {
+					if r.Chance(0.5) {
+						c.LateTables[i].Cols[j].Name += "_" + strings.ToLower(r.Str(5+r.Intn(45)))
+					}
+				}
+			}
+		}
 		if len(c.Tables[0].IdxKinds) > 0 {
 			for i := range c.LateTables {
 				if r.Chance(0.7) {
